@@ -45,6 +45,14 @@ mut("c10-zero-len-after-fail-ok", "C10",
     'return state->state == {self.dfa.states.index(self.generic_fail_state)} ? {self.program_name.upper()}_FAIL : {self.program_name.upper()}_OK;', 'return {self.program_name.upper()}_OK;')
 mut("c10-overflow-keeps-early-advance", "C10",
     "                    if not is_end and self._transition_advances_early(transition):", "                    if False:", extra_props=("C02", "C03"))
+mut("c10-strict-done-takes-error-transition", "C10",
+    "        if state in self.dfa.accepting_states and ProgramData.do(ProgramFlag.STRICT_DONE_TOKEN_GENERATION) and all(x.error_handling for x in state.transitions):",
+    "        if False:")
+mut("c10-yield-into-final-state-no-advance", "C10",
+    "        return needs_early_advance and not from_end and not transition.is_fallthrough\n",
+    "        return needs_early_advance and not from_end and not transition.is_fallthrough and not (transition.target in self.dfa.accepting_states and not ProgramData.do(ProgramFlag.STRICT_DONE_TOKEN_GENERATION) and all(x.error_handling for x in transition.target.transitions))\n")
+mut("c10-shortcircuit-through-accept-state", "C10",
+    "            # An accept state is never a \"dummy state\", even if all it has is an Else fallthrough\n            if transition.target in self.dfa.accepting_states: continue", "            pass")
 # ---- C03: memory
 mut("c03-capacity-off-by-one", "C03",
     "            max_length_expr = self._generate_buflike_length_expr(action.into_storage, include_null=True)",
@@ -86,6 +94,11 @@ mut("c17-inverted-class-matches-end", "C17",
     "                new_transitions[source.chars] = (else_path, False)")
 mut("c17-end-looks-up-else", "C17",
     "        unconditional_end_transition = state[DFTransition.End]", "        unconditional_end_transition = state[DFTransition.Else]")
+mut("c17-strict-done-end-match-fails", "C17",
+    "        elif from_end and transition.target in self.dfa.accepting_states:", "        elif False:")
+mut("c17-accept-state-error-transition-at-eof", "C17",
+    "        if unconditional_end_transition and not (state in self.dfa.accepting_states and unconditional_end_transition.error_handling):",
+    "        if unconditional_end_transition:")
 # ---- C20: purity
 mut("c20-reset-keeps-flags", "C20",
     "    def _reset_flags(cls):\n        cls._flags = {\n                x: x.default for x in ProgramFlag\n        }",
